@@ -5032,11 +5032,20 @@ impl PeerConnectionInner {
 
         if !desc.media_sections.is_empty() {
             if will_bundle {
-                let mids: Vec<String> = desc.media_sections.iter().map(|m| m.mid.clone()).collect();
-                let value = format!("BUNDLE {}", mids.join(" "));
-                desc.session
-                    .attributes
-                    .push(Attribute::new("group", Some(value)));
+                // Sections negotiated without a=mid (legacy peers) have an empty mid and
+                // cannot be named in a group; never emit empty identification tags.
+                let mids: Vec<String> = desc
+                    .media_sections
+                    .iter()
+                    .filter(|m| !m.mid.is_empty())
+                    .map(|m| m.mid.clone())
+                    .collect();
+                if !mids.is_empty() {
+                    let value = format!("BUNDLE {}", mids.join(" "));
+                    desc.session
+                        .attributes
+                        .push(Attribute::new("group", Some(value)));
+                }
             }
 
             // In LegacySip mode, omit a=mid entirely: legacy SIP endpoints confuse
